@@ -12,18 +12,42 @@ from pedantic.constants import TypeVar as TypeVar_, TYPE_VAR_SELF
 from pedantic.exceptions import PedanticTypeCheckException, PedanticTypeVarMismatchException, PedanticException
 
 
+def _describe(value: Any) -> str:
+    """
+        The text that stands for a value inside an error message. Building a message must never raise:
+        a value whose __str__ / __repr__ misbehaves is described like object.__repr__ would describe it.
+
+        >>> _describe(5)
+        '5'
+        >>> class Broken:
+        ...     def __str__(self): raise ValueError('no text')
+        >>> _describe(Broken()).startswith('<')
+        True
+    """
+
+    try:
+        return str(value)
+    except Exception:
+        return object.__repr__(value)
+
+
 def assert_value_matches_type(
         value: Any,
         type_: Any,
         err: str,
         type_vars: Dict[TypeVar_, Any],
         key: Optional[str] = None,
-        msg: Optional[str] = None,
+        msg: Union[None, str, Callable[[], str]] = None,
         context: Dict[str, Any] = None,
 ) -> None:
+    """ `msg` may be a function without parameters: it is called only if the value does not match. """
+
     if not _check_type(value=value, type_=type_, err=err, type_vars=type_vars, context=context):
         t = type(value)
-        value = f'{key}={value}' if key is not None else str(value)
+        value = f'{key}={_describe(value)}' if key is not None else _describe(value)
+
+        if callable(msg):
+            msg = msg()
 
         if not msg:
             msg = f'{err}Type hint is incorrect: Argument {value} of type {t} does not match expected type {type_}.'
@@ -120,8 +144,8 @@ def _check_type(value: Any, type_: Any, err: str, type_vars: Dict[TypeVar_, Any]
         raise PedanticTypeVarMismatchException(f'{err} {ex}')
     except (AttributeError, Exception) as ex:
         raise PedanticTypeCheckException(
-            f'{err}An error occurred during type hint checking. Value: {value} Annotation: '
-            f'{type_} Mostly this is caused by an incorrect type annotation. Details: {ex} ')
+            f'{err}An error occurred during type hint checking. Value: {_describe(value)} Annotation: '
+            f'{type_} Mostly this is caused by an incorrect type annotation. Details: {_describe(ex)} ')
 
 
 def _is_instance(obj: Any, type_: Any, type_vars: Dict[TypeVar_, Any], context: Dict[str, Any] = None) -> bool:
@@ -185,7 +209,7 @@ def _is_instance(obj: Any, type_: Any, type_vars: Dict[TypeVar_, Any], context: 
             if type_.__contravariant__:
                 if not _is_subtype(sub_type=other, super_type=obj.__class__):
                     raise PedanticTypeVarMismatchException(
-                        f'For TypeVar {type_} exists a type conflict: value {obj} has type {type(obj)} but TypeVar {type_} '
+                        f'For TypeVar {type_} exists a type conflict: value {_describe(obj)} has type {type(obj)} but TypeVar {type_} '
                         f'was previously matched to type {other}')
             else:
                 if isinstance(other, type) and other is not Any:
@@ -195,7 +219,7 @@ def _is_instance(obj: Any, type_: Any, type_vars: Dict[TypeVar_, Any], context: 
 
                 if not matches:
                     raise PedanticTypeVarMismatchException(
-                        f'For TypeVar {type_} exists a type conflict: value {obj} has type {type(obj)} but TypeVar {type_} '
+                        f'For TypeVar {type_} exists a type conflict: value {_describe(obj)} has type {type(obj)} but TypeVar {type_} '
                         f'was previously matched to type {other}')
 
         if type_ not in type_vars:
